@@ -267,6 +267,7 @@ func checkC01(p *Program, r *Report) {
 	if esp := p.SSAPkg("env"); esp != nil {
 		locksNotCopied(p, r, append(SrcFuncs(esp), m.fns...), "C01.R7")
 	}
+	c01SharedMaps(p, r)
 	// R1: unprotected reachability from exported roots
 	nRoots := 0
 	unprotectedFrames := map[*ssa.Function]bool{}
@@ -599,4 +600,90 @@ func guardedByCallOn(b *ssa.BasicBlock, method string, recv ssa.Value) bool {
 		}
 	}
 	return false
+}
+
+// c01SharedMaps (R8): a fault the runtime does not let anybody recover from. A map kept in a package-level variable of the
+// interpreter, the environment, the parser or the builtins and written (updated, deleted from) after initialisation is written
+// by every run, script goroutine and host goroutine that gets there: two of them at once end the process with "fatal error:
+// concurrent map writes", which no recover handler sees. Accepted: writes during package initialisation, and writes made while
+// a package-level mutex locked earlier in the same function is held.
+func c01SharedMaps(p *Program, r *Report) {
+	r.Explain("R8 no map kept in a package-level variable of vm, env, parser, ast or core is updated after initialisation except under a package-level mutex locked in the same function (concurrent map writes are a fatal, unrecoverable fault).")
+	isInit := initOracle(p)
+	globalMap := func(v ssa.Value) *ssa.Global {
+		for i := 0; i < 20; i++ {
+			switch x := v.(type) {
+			case *ssa.Global:
+				return x
+			case *ssa.UnOp:
+				v = x.X
+			case *ssa.FieldAddr:
+				v = x.X
+			case *ssa.Phi:
+				return nil
+			default:
+				return nil
+			}
+		}
+		return nil
+	}
+	n, bad := 0, 0
+	for _, sfx := range []string{"vm", "env", "parser", "ast", "core", "ast/astutil", "packages"} {
+		sp := p.SSAPkg(sfx)
+		if sp == nil {
+			continue
+		}
+		for _, fn := range SrcFuncs(sp) {
+			k := 0
+			for _, b := range fn.Blocks {
+				for _, in := range b.Instrs {
+					var g *ssa.Global
+					what := ""
+					switch x := in.(type) {
+					case *ssa.MapUpdate:
+						g, what = globalMap(x.Map), "update"
+					case *ssa.Call:
+						if bi, ok := x.Call.Value.(*ssa.Builtin); ok && (bi.Name() == "delete" || bi.Name() == "clear") && len(x.Call.Args) > 0 {
+							if _, isMap := x.Call.Args[0].Type().Underlying().(*types.Map); isMap {
+								g, what = globalMap(x.Call.Args[0]), bi.Name()
+							}
+						}
+					}
+					if g == nil {
+						continue
+					}
+					n++
+					if isInit(fn) {
+						continue
+					}
+					// a package-level mutex locked before, in this function
+					locked := false
+					for _, b2 := range fn.Blocks {
+						for _, in2 := range b2.Instrs {
+							c, ok := in2.(*ssa.Call)
+							if !ok || !instrDominates(c, in) {
+								continue
+							}
+							if o := calleeObj(c); o != nil && o.Pkg() != nil && o.Pkg().Path() == "sync" && o.Name() == "Lock" && len(c.Call.Args) > 0 {
+								if globalMap(c.Call.Args[0]) != nil {
+									locked = true
+								}
+							}
+						}
+					}
+					if locked {
+						continue
+					}
+					k++
+					bad++
+					r.Fail("C01.R8", fmt.Sprintf("%s|%s of map %s.%s #%d", funcName(fn), what, g.Pkg.Pkg.Name(), g.Name(), k), p.Pos(instrPos(in)),
+						"a package-level map is written after initialisation without a lock: two runs, script goroutines or host goroutines that get here together end the process with a fatal 'concurrent map writes', which no recover handler can turn into an error")
+				}
+			}
+		}
+	}
+	if bad == 0 {
+		r.OK("C01.R8", "package-level maps|written during initialisation only", "vm env parser ast core packages", fmt.Sprintf("%d map writes examined", n))
+	}
+	r.Floor("C01.R8", n, 5)
 }
